@@ -14,6 +14,7 @@ import (
 	"fmt"
 	"os"
 	"path"
+	"reflect"
 	"runtime"
 	"sort"
 	"strings"
@@ -306,6 +307,94 @@ func pushRoundCase() *caseIn {
 	}}
 }
 
+// the exported methods of *OperatorController the driver and the model know (= the regenerated obligation
+// controller_entry_points_ok); anything else that can be called without arguments is an entry point nobody modelled
+var knownEntryPoints = map[string]bool{"AddOperator": true, "AddWaitingOperator": true, "Ctx": true, "Dispatch": true, "ExceedStoreLimit": true,
+	"GetCluster": true, "GetFastOpInfluence": true, "GetHistory": true, "GetLeaderSchedulePolicy": true, "GetOpInfluence": true, "GetOperator": true,
+	"GetOperatorStatus": true, "GetOperators": true, "GetWaitingOperators": true, "OperatorCount": true, "PromoteWaitingOperator": true,
+	"PruneHistory": true, "PushOperators": true, "RemoveOperator": true, "SendScheduleCommand": true, "SetOperator": true}
+
+// entryRace: every unknown exported method of the controller that needs no argument (only variadic ones at most) is
+// called in a loop while four goroutines add n operators (one region each). Afterwards every operator must be running,
+// or ended AND remembered under its region. Returns the number of operators for which that is false (0 when the
+// controller has no unknown entry point - the unchanged tree).
+func (w *world) entryRace(n int) int64 {
+	ocv := reflect.ValueOf(w.oc)
+	var unknown []reflect.Value
+	for i := 0; i < ocv.NumMethod(); i++ {
+		m := ocv.Type().Method(i)
+		if knownEntryPoints[m.Name] {
+			continue
+		}
+		mt := ocv.Method(i).Type()
+		if mt.NumIn() == 0 || (mt.NumIn() == 1 && mt.IsVariadic()) {
+			unknown = append(unknown, ocv.Method(i))
+		}
+	}
+	if len(unknown) == 0 {
+		return 0
+	}
+	var ops []*operator.Operator
+	for i := 0; i < n; i++ {
+		rid := uint64(5000 + i)
+		meta := &metapb.Region{Id: rid, StartKey: []byte(fmt.Sprintf("z%05d", i)), EndKey: []byte(fmt.Sprintf("z%05d", i+1)),
+			RegionEpoch: &metapb.RegionEpoch{ConfVer: 3, Version: 1},
+			Peers: []*metapb.Peer{{Id: 3*rid + 1, StoreId: 1}, {Id: 3*rid + 2, StoreId: 2}, {Id: 3*rid + 3, StoreId: 3}}}
+		r := core.NewRegionInfo(meta, meta.Peers[0])
+		w.putRegion(r)
+		ops = append(ops, operator.NewOperator("race", "verif", rid, r.GetRegionEpoch(), operator.OpLeader, operator.TransferLeader{FromStore: 1, ToStore: 2}))
+	}
+	stop := make(chan struct{})
+	var wg sync.WaitGroup
+	wg.Add(1)
+	go func() {
+		defer wg.Done()
+		for {
+			select {
+			case <-stop:
+				return
+			default:
+			}
+			for _, m := range unknown {
+				m.Call(nil)
+			}
+		}
+	}()
+	var ag sync.WaitGroup
+	for g := 0; g < 4; g++ {
+		ag.Add(1)
+		go func(g int) {
+			defer ag.Done()
+			for i := g; i < n; i += 4 {
+				w.oc.AddOperator(ops[i])
+			}
+		}(g)
+	}
+	ag.Wait()
+	close(stop)
+	wg.Wait()
+	w.rec.Collect()
+	lost := int64(0)
+	for _, op := range ops {
+		if w.oc.GetOperator(op.RegionID()) == op {
+			continue
+		}
+		if op.Status() == operator.CREATED { // never admitted: not the property's business
+			continue
+		}
+		st := w.oc.GetOperatorStatus(op.RegionID())
+		if !operator.IsEndStatus(op.Status()) || st == nil || st.Op != op {
+			lost++
+		}
+	}
+	for _, op := range ops {
+		w.oc.RemoveOperator(op)
+		w.removeRegion(w.cl.GetRegion(op.RegionID()))
+	}
+	w.rec.Collect()
+	return lost
+}
+
 func (w *world) putRegion(r *core.RegionInfo) {
 	if w.rc != nil {
 		w.bc.PutRegion(r)
@@ -517,6 +606,8 @@ func (w *world) exec(e event) (string, obs) {
 	switch e.K {
 	case "recordstore":
 		return "ERecordStore " + coqfmt.Z(int64(e.ID)), obs{Res: recordStoreProbe(e.ID)}
+	case "entryrace":
+		return "EEntryRace " + coqfmt.Z(int64(e.ID)), obs{Res: w.entryRace(e.ID)}
 	case "kvfault":
 		if w.fkv != nil {
 			w.fkv.fail = e.P == "on"
@@ -1626,6 +1717,7 @@ func main() {
 			emit(runCase(rec, c, nil, "", 0))
 		}
 		emit(runCase(rec, pushRoundCase(), nil, "", 0))
+		emit(runCase(rec, &caseIn{MaxWaiting: 5, Gen: "entry-race", Events: []event{{K: "entryrace", ID: 4000}}}, nil, "", 0))
 		for k := 0; k < *n; k++ {
 			r := master.Fork(uint64(k))
 			c := &caseIn{MaxWaiting: 5, SameIDs: r.Pct(15)}
